@@ -171,7 +171,7 @@ fn run_partition(ev: &mut Ev, st: &Stream, cuts: &[usize]) -> CaseResult {
             let printed = ss.to_string();
             ev.eval();
             ev.count("prints_between_writes");
-            let want = &st.bytes[..st.starts[n]];
+            let want = &st.canon[..st.canon_starts[n]];
             if printed.as_bytes() != want {
                 return Err(format!(
                     "Display of the collection after write #{w} ({n} entries collected) is not those entries: {}",
@@ -209,7 +209,7 @@ fn run_partition(ev: &mut Ev, st: &Stream, cuts: &[usize]) -> CaseResult {
     }
     let printed = ss.to_string();
     ev.eval();
-    let want = &st.bytes[..st.starts[limit]];
+    let want = &st.canon[..st.canon_starts[limit]];
     if printed.as_bytes() != want {
         return Err(format!(
             "Display of the collection does not reproduce the {}: {}",
